@@ -15,11 +15,11 @@ import (
 	"go/ast"
 	"go/parser"
 	"go/token"
-	"sort"
 	"io"
 	"os"
 	"path/filepath"
 	"regexp"
+	"sort"
 	"strconv"
 	"strings"
 )
